@@ -183,6 +183,10 @@ class OpGen:
         values = None
         if state == "COMPLETE" or (state == "PRUNED" and rng.random() < 0.5):
             values = [cf(self.objective_value()) for _ in range(nobj)]
+        elif state in ("RUNNING", "WAITING") and rng.random() < 0.35:
+            # an unfinished template may carry provisional values; telling the trial later
+            # overwrites them (writes overwrite by key)
+            values = [cf(self.objective_value()) for _ in range(nobj)]
         inter = {}
         if rng.random() < 0.6:
             for step in rng.sample(range(0, 12), rng.randint(1, 3)):
